@@ -35,7 +35,11 @@ Definition flowA_rows : list frow :=
   [ row_ TSend (L_ "a1") [e_ "start"] (L_ "hi");
     row_ TWait (L_ "w") [e_ ""] [];
     row_ TSend (L_ "a2") [ec_ "w" "yes" "Yes"] (L_ "good");
-    row_ TSend (L_ "a3") [ec_ "w" "no" ""] (L_ "bad") ].
+    row_ TSend (L_ "a3") [ec_ "w" "no" ""] (L_ "bad");
+    (* 4 *) set_objid (row_ TStartFlow (L_ "c1") [e_ ""] (L_ "child")) (S_ "33333333-3333-4333-8333-333333333333");
+    (* 5 *) row_ TSend (L_ "a5") [ec_ "c1" "completed" ""] (L_ "back");
+    (* 6 *) row_ TStartFlow (L_ "c2") [e_ ""] (L_ "child");
+    (* 7 *) row_ TSend (L_ "a7") [ec_ "c2" "expired" ""] (L_ "late") ].
 
 Definition flowB_rows : list frow :=
   [ (* 0 *) row_ TSend (L_ "a") [e_ "start"] (L_ "hello " ++ [Ref (S_ "label")]);
@@ -184,6 +188,13 @@ Example detect_uuid_conflict_nonvacuous :
   = Err EUuidConflict.
 Proof. split; [apply ex_evaluated; vm_compute; reflexivity|]. repeat split; vm_compute; reflexivity. Qed.
 
+Example detect_flow_uuid_conflict_nonvacuous :
+  evaluated_at ex_fuel ex_wb None A 6 (trap_state (ev A 6)) (trap_bt (ev A 6)) /\
+  uget (uu_flows (f_uu (trap_state (ev A 6)))) (S_ "child") = Some (UGiven (S_ "33333333-3333-4333-8333-333333333333")) /\
+  compile ex_fuel (set_row ex_wb A 6 (set_objid (nth 6 flowA_rows (row_ TSend [] [] [])) (S_ "44444444-4444-4444-8444-444444444444"))) None
+  = Err EUuidConflict.
+Proof. split; [apply ex_evaluated; vm_compute; reflexivity|]. split; vm_compute; reflexivity. Qed.
+
 Example detect_mismatched_terminator_nonvacuous :
   (exists s, compile_trap ex_fuel ex_wb None B 4 false sel_read = Err (TTrap B 4 s BFor false)) /\
   compile ex_fuel (set_row ex_wb B 4 (set_type (nth 4 flowB_rows (row_ TSend [] [] [])) TEndBlock)) None = Err EWrongTerminator.
@@ -264,4 +275,16 @@ Example trigger_fault_fatal_nonvacuous :
                             then (fst ns, STriggers [mkTR true [S_ "join"] (S_ "flowA") [] []; mkTR false [] (S_ "no such flow") [] []])
                             else ns) ex_wb in
   compile ex_fuel wb' None = Err ETriggerFlow.
+Proof. vm_compute. reflexivity. Qed.
+
+Example detect_missing_flow_sheet_nonvacuous :
+  let bad := ix_ ICreateFlow ["no_such_flow_sheet"] in
+  is_ok (process_index ex_fuel (erase (set_index ex_wb (ex_index ++ [bad]))) None (ex_index ++ [bad]) is0) = true /\
+  compile ex_fuel (set_index ex_wb (ex_index ++ [bad])) None = Err ESheetNotFound.
+Proof. split; vm_compute; reflexivity. Qed.
+
+Example detect_template_argument_in_data_row_nonvacuous :
+  (* the template of the second flow definition declares an argument called like a column of its data sheet *)
+  let def := mkIx ITemplateDef false [S_ "flowB"] [] [] [] [] [mkAD (S_ "label") (S_ "dflt")] [] OpNone [] in
+  compile ex_fuel (set_index ex_wb (def :: ex_index)) None = Err EArgDouble.
 Proof. vm_compute. reflexivity. Qed.
